@@ -43,8 +43,8 @@ func checkC11(c *Ctx) {
 		}
 		return out
 	}
-	aBits := beBits(addr)   // 32
-	nBits := beBits(netID)  // 24
+	aBits := beBits(addr)  // 32
+	nBits := beBits(netID) // 24
 	typeIs := func(t int) absint.Node {
 		c := absint.True
 		for i := 0; i < 3; i++ {
@@ -134,7 +134,9 @@ func checkC11(c *Ctx) {
 			r.Check(ok, "R2.netid", fmt.Sprintf("NetID.ID/type%d", t), "", fmt.Sprintf("low %d bits of the NetID in %d bytes", w, wantLen), why, true)
 		}
 		return nil
-	}, func(tag string, err error) { r.Unknown("R2.netid", "NetID.ID"+tag, "", "inside the interpreter's subset", err.Error()) })
+	}, func(tag string, err error) {
+		r.Unknown("R2.netid", "NetID.ID"+tag, "", "inside the interpreter's subset", err.Error())
+	})
 	in.SetLive(absint.True)
 	if res, e := tryCall(in, &absint.Cell{V: netID}, NT, "Type"); e != nil {
 		r.Unknown("R2.netid", "NetID.Type", "", "inside subset", e.Error())
@@ -206,7 +208,9 @@ func checkC11(c *Ctx) {
 			r.Check(ok, "R2.nwkid", fmt.Sprintf("DevAddr.NwkID/type%d", t), "", fmt.Sprintf("address bits %d..%d in %d bytes", 31-p, 32-p-n, wantLen), why, true)
 		}
 		return nil
-	}, func(tag string, err error) { r.Unknown("R2.nwkid", "DevAddr.NwkID"+tag, "", "inside the interpreter's subset", err.Error()) })
+	}, func(tag string, err error) {
+		r.Unknown("R2.nwkid", "DevAddr.NwkID"+tag, "", "inside the interpreter's subset", err.Error())
+	})
 	// ---- IsNetID: one run per NetID type with the type bits fixed and the variables of the address's NwkID
 	// field interleaved with the NetID bits they are compared with (keeps the comparison BDDs linear)
 	for t := 0; t < 8; t++ {
@@ -223,10 +227,14 @@ func checkC11(c *Ctx) {
 	c11FlowHook(c)
 }
 
-var c11FlowHook = func(c *Ctx) { c.Run.Note("text/SQL representation rules (hex pairing, exact length before copy, checked assertion in Scan) are provided by the flow engine") }
+var c11FlowHook = func(c *Ctx) {
+	c.Run.Note("text/SQL representation rules (hex pairing, exact length before copy, checked assertion in Scan) are provided by the flow engine")
+}
 
 func tryCall(in *absint.Interp, cell *absint.Cell, T interface{ String() string }, name string, args ...absint.Value) (res []absint.Value, err error) {
-	err = in.Try(func() { res = in.CallMethod(cell, in.NamedType("", T.String()[len("github.com/brocaar/lorawan."):]), name, args...) })
+	err = in.Try(func() {
+		res = in.CallMethod(cell, in.NamedType("", T.String()[len("github.com/brocaar/lorawan."):]), name, args...)
+	})
 	return
 }
 
@@ -292,6 +300,8 @@ func c11IsNetID(c *Ctx, t int) {
 			diff := d.M.And(dom, d.M.Xor(got, want))
 			r.Check(diff == absint.False, "R3.isnetid", key+tag, "", "true iff the address has the NetID's type prefix and its NwkID equals the low bits of the NetID's ID", "boolean functions equal: "+fmt.Sprint(diff == absint.False)+witnessIf(in, diff), true)
 			return nil
-		}, func(tag string, err error) { r.Unknown("R3.isnetid", key+tag, "", "inside the interpreter's subset", err.Error()) })
+		}, func(tag string, err error) {
+			r.Unknown("R3.isnetid", key+tag, "", "inside the interpreter's subset", err.Error())
+		})
 	}()
 }
